@@ -200,7 +200,11 @@ func driveC14(args []string) error {
 		if !thorough() && gi%3 != int(seed()%3) {
 			continue
 		}
-		for l := 1; l <= 3; l++ {
+		maxLen := 3
+		if thorough() {
+			maxLen = 4
+		}
+		for l := 1; l <= maxLen; l++ {
 			total := 1
 			for k := 0; k < l; k++ {
 				total *= len(atoms)
@@ -215,6 +219,25 @@ func driveC14(args []string) error {
 				run(fmt.Sprintf("opt/%d/list%d/%d", gi, l, c), g, opts)
 			}
 		}
+	}
+	// longer random lists over every palette index (duplicates, overrides before and after full replacements)
+	nrand := 120
+	if thorough() {
+		nrand = 6000
+	}
+	for r := 0; r < nrand; r++ {
+		var opts []opt
+		for k := 1 + rng.Intn(8); k > 0; k-- {
+			switch rng.Intn(6) {
+			case 0:
+				opts = append(opts, mkPal(&fullA))
+			case 1:
+				opts = append(opts, mkPal(&fullB))
+			default:
+				opts = append(opts, mkAt([]int{0, 5, 63, rng.Intn(64), rng.Intn(64)}[rng.Intn(5)], cols[rng.Intn(len(cols))]))
+			}
+		}
+		run(fmt.Sprintf("opt/%d/random/%d", r%len(graphics), r), graphics[r%len(graphics)], opts)
 	}
 	n1, _ := dec.Close()
 	n2, _ := rend.Close()
